@@ -28,7 +28,10 @@ TRUSTED_BASE = [
     "hand-written model GraphiqModel/Model/{Gauss,DMSem,Noise}.lean tied to compiler_base.py, noise_models.py, stabilizer/state.py, "
     "density_matrix/{state,functions,compiler}.py, stabilizer/compiler.py by this correspondence run",
     "Model/Tableau.lean (C07) for the per-branch tableau operations",
-    "tensor-product lifting: rho(P·T) = P rho(T) P† for Pauli P (clause (c) for all n is checked by the driver per input, n<=4, not proved)",
+    "clause (c) (DM = sum_k p_k rho(T_k): measurement-free circuits, and circuits whose measurements find all branches agreeing - the model's "
+    "nonUniform flag off, weight > 2e-8 - all n) is proved about the exact models (Properties/C06.lean: dm_equals_mixture, "
+    "dm_equals_mixture_with_uniform_measurements); the driver's per-input evaluation of both sides (n<=4) now only tests the compiled "
+    "definitions against numpy; the harness uses the same flag to separate finding F2 from a genuine backend disagreement",
     "positivity of the *floating-point* matrix is checked by the oracle (min eigenvalue >= -1e-9), not proved",
     "harness, line protocol, logging noise wrappers, numpy reference converter",
 ]
@@ -538,6 +541,11 @@ def check_case(res, drv, spec, mk_circ, det, noise_sim, tag, ref_clean=None):
                 break
     if rho is not None and mix is not None and not np.any(np.isnan(rho)) and n <= 4:
         ref = sum(p * du.stab_density(t) for p, t in mix)
+        # which theorem of Properties/C06.lean speaks about this input (coverage record only): `dm_equals_mixture` (no measurement),
+        # `dm_equals_mixture_with_uniform_measurements` (the model's nonUniform flag off), or neither (flag on: domain of finding F2)
+        has_meas = any(KIND_OF_CLASS.get(type(o).__name__, "") in ("measz", "mcr", "ccnot", "ccz") for o in impl["stab"]["seq"])
+        res.branch(["clause-c:" + ("flag-on(F2-domain)" if reps["stab"].get("nonunif") == "1"
+                                   else ("uniform-measurements" if has_meas else "measurement-free"))])
         if not du.mat_close(ref, rho):
             flags_nonunif = reps["stab"].get("nonunif") == "1"
             if m_loss and abs(float(np.trace(rho).real) - float(np.trace(ref).real)) > 1e-9:
